@@ -30,6 +30,11 @@ class StepLimit(Exception):
     pass
 
 
+class Stall(Exception):
+    """the running thread did not come back to the scheduler within the wall watchdog: it is blocked on
+    something the scheduler does not control (e.g. a real lock).  Inconclusive, never a verdict."""
+
+
 class _T:
     __slots__ = ("tid", "name", "fn", "thread", "go", "finished", "blocked", "pred", "exc", "started", "why")
 
@@ -158,7 +163,9 @@ class Scheduler:
                 self.trace.append((nxt.tid, nxt.why))
                 self.current = nxt
                 nxt.go.release()
-                self.back.acquire()
+                if not self.back.acquire(timeout=60):
+                    err = Stall(f"thread {nxt.name} did not yield within 60 s (blocked outside the scheduler's control?)")
+                    break
                 self.current = None
                 if on_step is not None:
                     on_step(self)
